@@ -425,6 +425,20 @@ def check_mro(world: Dict[str, Any], system: Any) -> List[Viol]:
             names: Set[str] = set()
             for c in want:
                 names.update(defs[str(c)].get('members', {}))
+            # the class page attributes every (inherited) member to one class: the first definer along the order
+            try:
+                from pydoctor.templatewriter import util as _twutil
+                shown: Dict[str, List[Optional[int]]] = {}
+                for baselist, attrs in _twutil.class_members(cls):
+                    for a in attrs:
+                        shown.setdefault(a.name, []).append(marker_of(baselist[0]))
+                for name in sorted(names):
+                    definer = next(c for c in want if name in defs[str(c)]['members'])
+                    if shown.get(name) != [definer]:
+                        out.append(('member-listed-under-wrong-class', f'on the page of M{cid}, member {name!r} is listed under {shown.get(name)}, attribute lookup finds it in M{definer}'))
+                        break
+            except ImportError:
+                pass
             for name in sorted(names):
                 definer = next(c for c in want if name in defs[str(c)]['members'])
                 exp_id = defs[str(definer)]['members'][name]
